@@ -5,6 +5,8 @@ P0 == [bucket |-> 2, overhead |-> 0, sparse |-> 0, bparam |-> 4, bwt |-> 0, cut 
 MCStrs == {<<97>>, <<98>>, <<97, 98>>, <<97, 254>>}
 MCKindPars == {<<"PFC", P0>>, <<"PFC", [P0 EXCEPT !.bucket = 1]>>, <<"HASHHF", P0>>, <<"FMINDEX", [P0 EXCEPT !.bwt = 2]>>,
                <<"XBW", P0>>, <<"BLOCKS", P0>>}
+QStrs == {<<97>>, <<97, 98>>, <<254>>}
+QKindPars == {<<"PFC", [P0 EXCEPT !.bucket = 1]>>, <<"HASHHF", P0>>, <<"FMINDEX", [P0 EXCEPT !.bwt = 2]>>}
 \* observation variable hidden from the state space
 View == <<objs, imgs, iters>>
 \* bound the history: at most 2 objects ever, 1 image, 1 iterator
